@@ -87,6 +87,10 @@ def expected(lin, L, cls, v, x):
             t = _gen_apply(A.gname, A.oshape, x)
             y = t if y is None else y + t
         return y
+    if cls == "DiagMixed":
+        parts = _blocks(x, [A.ishape[0] for A in ops], 0)
+        outs = [_gen_apply(A.gname, A.oshape, p) for A, p in zip(ops, parts)]
+        return snp.concatenate(outs, axis=v["oaxis"] % 2)
     if cls in ("Hstack", "Vstack", "Diag"):
         axis = v["axis"]
         rr = v.get("rank", 1)
@@ -126,6 +130,15 @@ def expected(lin, L, cls, v, x):
             return A(x) - B2(x)
         if kind == "-A":
             return -A(x)
+        b = linops._cplx("b")
+        AH = lambda y: linops.kernel_apply("op:A", y, [Sym(z3.Int("m0"))], y.ndim, transposed=True)
+        B3 = lambda y: _gen_apply("B3", [Sym(z3.Int("o0"))], y)
+        if kind == "(a*A).H*(b*B3)":
+            return AH(B3(x) * b) * a.conjugate()
+        if kind == "(a*A).H*(a*A)":
+            return AH(A(x) * a) * a.conjugate()
+        if kind == "(a*A).H*b":
+            return AH(x * b) * a.conjugate()
         return None
     return None
 
@@ -238,7 +251,7 @@ def jobs(tier):
     js = []
     for cls, v in linops.variants(tier):
         js.append(Job(M, "job_linop", prop="C03", cls=cls, v=v))
-        if cls in ("Compose", "Add", "Hstack", "Vstack", "Diag", "overload"):
+        if cls in ("Compose", "Add", "Hstack", "Vstack", "Diag", "DiagMixed", "overload"):
             js.append(Job(M, "job_structure", cls=cls, v=v))
     for fn in ("_hstack_params", "_vstack_params"):
         for nshapes, rank in ((1, 1), (2, 1), (2, 2), (3, 2), (2, 3)) + (((3, 3), (4, 2)) if tier == "thorough" else ()):
